@@ -226,6 +226,7 @@ def enum_shards(tier, seed):
                 if tier == 'quick' and (KINDS.index(kind) + int(fallible) + ['plainA', 'plainB', 'litpat', 'ghosts'].index(variant) + seed) % 2:
                     continue
                 out.append({'family': 'enum', 'kind': kind, 'fallible': fallible, 'variant': variant})
+        out.append({'family': 'enum', 'kind': kind, 'fallible': kind.startswith('Ref'), 'variant': 'plainB', 'with_d': True})
     return out
 
 
@@ -248,6 +249,11 @@ def make_enum(sh):
                         instrs=[SimpleInstr('type_hint', Ch('v1h', ['Unspecified', 'Struct', 'Tuple', 'Unit']), ded=Ch('v1hd', [None, 'X']))])
             v2 = Member('C', shape='named', fields=[Member('x', instrs=[GhostInstr(Ch('f1g', ['ghost', 'ghost_owned', 'ghost_ref']), action=Ch('f1a', [None, '__g(@)']), tag='fg')]), Member('y', instrs=[MapInstr('map', member=Ch('f2m', [None, ('n', 'yy'), ('i', 0)]), tag='f2')])],
                         instrs=[SimpleInstr('type_hint', Ch('v2h', ['Unspecified', 'Struct', 'Tuple', 'Unit']))])
+            v3 = Member('D', shape='tuple', fields=[Member(None, instrs=[GhostInstr(Ch('d0g', ['ghost', 'ghost_owned']), action=Ch('d0a', ['__gd(@)', None]), tag='gd')]),
+                                                    Member(None, instrs=[MapInstr('map', member=Ch('d1m', [('n', 'd1'), None]), tag='d1')]), Member(None, instrs=[MapInstr('map', member=('n', 'd2'), action=Ch('d2a', [None, '__d2(~)']), tag='d2')])],
+                        instrs=[SimpleInstr('type_hint', Ch('v3h', ['Struct', 'Unspecified']))])
+            if sh.get('with_d'):
+                return Spec('enum', traits=[t1], members=[v3, v2])
             return Spec('enum', traits=[t1], members=[v1, v2])
         if variant == 'litpat':
             t1 = TraitInstr(tn, 'i32', err=err, default_case=Ch('td', [None, '=> __dflt(@)']), tag='t1')
